@@ -6,8 +6,9 @@
                               one (caller, callee) pair each, with a reason (tables/exceptions.json).
   C10.b size-test placement   in insert_rr the comparison against DNS_MAX_UNCOMPRESSED_SIZE is evaluated after the last
                               replacement of the packet and before the first growth of the buffer, on every path
-                              (the test is made on the length the splice actually uses).  [the arithmetic side of the
-                              limit — no underflow, sum <= 8192 entailed — is decided by the E4 rule C10.b-arith]
+                              (the test is made on the length the splice actually uses).  C10.b-arith (E4): no arithmetic of the
+                              size test or the splice can overflow for any accepted packet, and the length handed to resize() is
+                              provably <= 8192
   C10.c tombstone first       in set_raw_name, delete and resize_rr the `offset().ok_or(VoidRecord)?` test precedes every
                               destructive event on every path; in set_raw_name the name validation does too
 
@@ -274,6 +275,9 @@ def run(ctx):
                 ctx.violation(rid, '<floor>', 'growth sites', 'no buffer growth found in insert_rr', kind='below-floor')
             if limit != 8192:
                 ctx.violation(rid, 'constants::DNS_MAX_UNCOMPRESSED_SIZE', 'value', 'DNS_MAX_UNCOMPRESSED_SIZE is %d, the property states 8192' % limit, config=cfg)
+        if cfg != 'hooks' and limit is not None:
+            from rules import geometry
+            geometry.insert_rule(ctx, facts, cfg, 'C10.b-geometry', 'C10.b-arith', limit)
         # ------------------------------ C10.c ---------------------------------
         rid = 'C10.c'
         gau = GuardAu(facts, pe)
